@@ -61,9 +61,10 @@ class LoopSpec:
     variant(ex, env): optional integer term that must decrease (while loops).
     """
 
-    def __init__(self, inv, havoc, modifies=(), ghost=None, variant=None, unroll=False, enter=None):
+    def __init__(self, inv, havoc, modifies=(), ghost=None, variant=None, unroll=False, enter=None, peel=0):
         self.inv, self.havoc, self.modifies = inv, havoc, tuple(modifies)
         self.ghost, self.variant, self.unroll, self.enter = ghost, variant, unroll, enter
+        self.peel = peel          # number of leading iterations executed concretely before the cut
 
 
 def assigned_names(stmts):
@@ -510,7 +511,18 @@ class Executor:
         if undeclared:
             raise Unsupported(f"loop {ordinal} re-assigns {sorted(undeclared)}, not covered by the invariant's modifies", s)
         L = f"loop{ordinal}"
-        zero = z3.IntVal(0)
+        zero = z3.IntVal(spec.peel)
+        if spec.peel:
+            if seq is None:
+                raise Unsupported("peeling a while loop", s)
+            self.oblige(f"{L}.peel.nonempty", seq.n >= spec.peel, "precondition", s)
+            self.assume(seq.n >= spec.peel)
+            for j in range(spec.peel):
+                self.bind(s.target, seq.item(z3.IntVal(j)), env, s)
+                try:
+                    self.run(s.body, env)
+                except ContinueSig:
+                    pass
         if spec.enter:
             spec.enter(self, env, seq)
         # 1. initiation
@@ -520,7 +532,7 @@ class Executor:
         if branch == 0:
             # 2. preservation: arbitrary iteration k
             spec.havoc(self, env, k)
-            self.assume(k >= 0)
+            self.assume(k >= spec.peel)
             if seq is not None:
                 self.assume(k < seq.n)
             self._assume_inv(spec, env, k)
